@@ -270,6 +270,15 @@ func (l *lowerer) useType(fq string, f *File) {
 
 func (l *lowerer) lowerMessage(f *File, m *Message, fq string) (*descriptorpb.DescriptorProto, error) {
 	md := &descriptorpb.DescriptorProto{Name: proto.String(m.Name)}
+	if len(m.CEL) > 0 {
+		mr := &validate.MessageRules{}
+		for _, c := range m.CEL {
+			mr.Cel = append(mr.Cel, &validate.Rule{Id: proto.String(c.ID), Message: proto.String(c.Message), Expression: proto.String(c.Expression)})
+		}
+		md.Options = &descriptorpb.MessageOptions{}
+		proto.SetExtension(md.Options, validate.E_Message, mr)
+		l.deps[pathValidate] = true
+	}
 	oneofIdx := map[string]int32{}
 	for i, o := range m.Oneofs {
 		od := &descriptorpb.OneofDescriptorProto{Name: proto.String(o.Name)}
